@@ -18,6 +18,7 @@ func init() {
 	register(
 		&Rule{ID: "PN-HASH", Doc: "no map keyed by (or == between) interface values whose repository implementors are not comparable, in code reachable from token entry points", Run: rulePNHash, Min: 1},
 		&Rule{ID: "PN-ASSERT", Doc: "every single-result type assertion reachable from token entry points is guarded by the matching Type() tag", Run: rulePNAssert, Min: 20},
+		&Rule{ID: "PN-SLICE", Doc: "every slice expression with a computed bound is proved within 0..len: the bound is non-negative by provenance (lengths, counters, guarded differences) and tested against the length", Run: rulePNSlice, Min: 4},
 		&Rule{ID: "PN-OPTPTR", Doc: "optional pointer fields of the library's own structs (root key id, ...) are dereferenced only under a nil test", Run: rulePNOptPtr, Min: 2},
 		&Rule{ID: "PN-PBREQ", Doc: "pointer-typed protobuf fields are dereferenced only when the schema marks them required (or under a nil guard / through a getter)", Run: rulePNPbReq, Min: 10},
 		&Rule{ID: "PN-STDLIB", Doc: "length / provenance preconditions of ed25519 and encoding/binary calls hold on every path", Run: rulePNStdlib, Min: 8},
@@ -1407,3 +1408,209 @@ func rulePNOptPtr(p *Prog, r *Reporter) {
 }
 
 var mandatoryCapture = regexp.MustCompile("^@(@|[A-Za-z]+)$")
+
+// ---- PN-SLICE: computed slice bounds
+
+// nonNegative: v >= 0 on every path to blk, by provenance.
+func (p *Prog) nonNegative(v ssa.Value, blk *ssa.BasicBlock, depth int, seen map[ssa.Value]bool) bool {
+	if depth > 6 || seen[v] {
+		return false
+	}
+	seen[v] = true
+	defer delete(seen, v)
+	if k, ok := constInt(v); ok {
+		return k >= 0
+	}
+	switch x := v.(type) {
+	case *ssa.Call:
+		if b, ok := x.Call.Value.(*ssa.Builtin); ok && (b.Name() == "len" || b.Name() == "cap" || b.Name() == "copy") {
+			return true
+		}
+		// a method whose every result is non-negative (Len)
+		if f := x.Call.StaticCallee(); f != nil && p.isRepoFunc(f) && f.Blocks != nil && f.Signature.Results().Len() == 1 {
+			for _, ret := range returnsOf(f) {
+				if !p.nonNegative(retVal(ret, 0), ret.Block(), depth+1, seen) {
+					return false
+				}
+			}
+			return true
+		}
+	case *ssa.Convert:
+		// widening of an unsigned or of a non-negative value
+		if bt, ok := x.X.Type().Underlying().(*types.Basic); ok && bt.Info()&types.IsUnsigned != 0 {
+			sw, _, _ := intWidth(p, x.X.Type())
+			dw, _, _ := intWidth(p, x.Type())
+			return sw < dw
+		}
+		return p.nonNegative(x.X, blk, depth+1, seen)
+	case *ssa.Phi:
+		for i, e := range x.Edges {
+			if !p.nonNegative(e, x.Block().Preds[i], depth+1, seen) {
+				return false
+			}
+		}
+		return true
+	case *ssa.BinOp:
+		switch x.Op {
+		case token.ADD, token.MUL:
+			// (no overflow reasoning: operands are lengths and counters)
+			return p.nonNegative(x.X, blk, depth+1, seen) && p.nonNegative(x.Y, blk, depth+1, seen)
+		case token.SUB:
+			// a - b with a dominating a >= b (or, for constant b, a guard on a)
+			for _, g := range guardsOf(blk) {
+				bo, ok := g.cond.(*ssa.BinOp)
+				if !ok {
+					continue
+				}
+				sameXY := p.D(bo.X) == p.D(x.X) && p.D(bo.Y) == p.D(x.Y)
+				sameYX := p.D(bo.X) == p.D(x.Y) && p.D(bo.Y) == p.D(x.X)
+				switch {
+				case sameXY && ((bo.Op == token.GEQ && g.val) || (bo.Op == token.GTR && g.val) || (bo.Op == token.LSS && !g.val)):
+					return true
+				case sameYX && ((bo.Op == token.LEQ && g.val) || (bo.Op == token.LSS && g.val) || (bo.Op == token.GTR && !g.val)):
+					return true
+				}
+				// constant subtrahend k: guard a >= k, a > k-1, a != 0 / a == 0 false (k == 1, a non-negative)
+				if k, isK := constInt(x.Y); isK && k >= 0 && p.D(bo.X) == p.D(x.X) {
+					if c, isC := constInt(bo.Y); isC {
+						switch {
+						case bo.Op == token.GEQ && g.val && c >= k, bo.Op == token.GTR && g.val && c+1 >= k, bo.Op == token.LSS && !g.val && c >= k, bo.Op == token.LEQ && !g.val && c+1 >= k:
+							return true
+						case k == 1 && c == 0 && ((bo.Op == token.EQL && !g.val) || (bo.Op == token.NEQ && g.val)) && p.nonNegative(x.X, blk, depth+1, seen):
+							return true
+						}
+					}
+				}
+			}
+			return false
+		}
+	case *ssa.UnOp:
+		if x.Op != token.MUL {
+			return false
+		}
+		// load of a struct field: every store to that field in the repository is non-negative
+		if fa, ok := x.X.(*ssa.FieldAddr); ok {
+			owner := deref(fa.X.Type())
+			n := 0
+			for _, fn := range p.Funcs {
+				for _, b := range fn.Blocks {
+					for _, in := range b.Instrs {
+						st, isSt := in.(*ssa.Store)
+						if !isSt {
+							continue
+						}
+						fa2, isFA := st.Addr.(*ssa.FieldAddr)
+						if !isFA || fa2.Field != fa.Field || !types.Identical(deref(fa2.X.Type()), owner) {
+							continue
+						}
+						n++
+						if !p.nonNegative(st.Val, b, depth+1, seen) {
+							return false
+						}
+					}
+				}
+			}
+			return n > 0
+		}
+		// spilled local
+		if a, ok := x.X.(*ssa.Alloc); ok {
+			sts := storesInto(a)
+			for _, st := range sts {
+				if st.Addr != ssa.Value(a) || !p.nonNegative(st.Val, st.Block(), depth+1, seen) {
+					return false
+				}
+			}
+			return len(sts) > 0
+		}
+	case *ssa.Parameter:
+		// every call site in the repository passes a non-negative value
+		fn := x.Parent()
+		idx := -1
+		for i, pr := range fn.Params {
+			if pr == x {
+				idx = i
+			}
+		}
+		n := 0
+		for _, caller := range p.Funcs {
+			for _, c := range callsIn(caller) {
+				if c.Common().StaticCallee() != fn {
+					continue
+				}
+				args := callArgs(c.Common())
+				if idx < 0 || idx >= len(args) {
+					return false
+				}
+				n++
+				if !p.nonNegative(args[idx], c.Block(), depth+1, seen) {
+					return false
+				}
+			}
+		}
+		return n > 0
+	}
+	// loop counters of range loops
+	if bo, ok := v.(*ssa.BinOp); ok && bo.Op == token.ADD {
+		return false
+	}
+	return false
+}
+
+func rulePNSlice(p *Prog, r *Reporter) {
+	globalP = p
+	for _, fn := range p.funcsIn("biscuit", "datalog", "parser") {
+		name := p.FuncName(fn)
+		for _, b := range fn.Blocks {
+			for _, in := range b.Instrs {
+				sl, ok := in.(*ssa.Slice)
+				if !ok {
+					continue
+				}
+				seqD := p.D(sl.X)
+				if _, isPtrArr := sl.X.Type().Underlying().(*types.Pointer); isPtrArr {
+					seqD = strings.TrimPrefix(seqD, "&")
+				}
+				for bi, bnd := range []ssa.Value{sl.Low, sl.High, sl.Max} {
+					if bnd == nil {
+						continue
+					}
+					if _, isC := constInt(bnd); isC {
+						continue // PN-CONSTINDEX
+					}
+					which := []string{"low", "high", "max"}[bi]
+					construct := which + " bound of " + normaliseD(shortD(sl.X))
+					d := p.D(bnd)
+					// upper: bound <= len(seq) (cap for max)
+					upper := d == "len("+seqD+")" || d == "cap("+seqD+")"
+					if bo, isB := bnd.(*ssa.BinOp); isB && bo.Op == token.SUB {
+						if k, isK := constInt(bo.Y); isK && k >= 0 && (p.D(bo.X) == "len("+seqD+")") {
+							upper = true
+						}
+					}
+					for _, g := range guardsOf(b) {
+						bo, isB := g.cond.(*ssa.BinOp)
+						if !isB {
+							continue
+						}
+						lenD := "len(" + seqD + ")"
+						if p.D(bo.X) == d && p.D(bo.Y) == lenD && ((bo.Op == token.GTR && !g.val) || (bo.Op == token.LEQ && g.val) || (bo.Op == token.LSS && g.val) || (bo.Op == token.GEQ && !g.val)) {
+							upper = true
+						}
+						if p.D(bo.Y) == d && p.D(bo.X) == lenD && ((bo.Op == token.LSS && !g.val) || (bo.Op == token.GEQ && g.val) || (bo.Op == token.GTR && g.val) || (bo.Op == token.LEQ && !g.val)) {
+							upper = true
+						}
+					}
+					lower := p.nonNegative(bnd, b, 0, map[ssa.Value]bool{})
+					switch {
+					case upper && lower:
+						r.OK(p.instrPos(sl), name, construct, "0 <= "+shortD(bnd)+" <= length: non-negative by provenance and tested against the length")
+					case !lower:
+						r.Bad(p.instrPos(sl), name, construct, "the computed bound "+shortD(bnd)+" is not known to be non-negative (a difference without a dominating comparison, or a value of unknown origin): content of a token or an unusual history makes the slice expression panic")
+					default:
+						r.Bad(p.instrPos(sl), name, construct, "the computed bound "+shortD(bnd)+" is not tested against the length of the sliced value: it can exceed it and panic")
+					}
+				}
+			}
+		}
+	}
+}
